@@ -571,10 +571,93 @@ def check_relayplayer(case):
     return Result(vio or None, sorted(classes) or ["plain"], bool(classes))
 
 
+# ---- queue events whose handlers have conditions over global state: a condition is read when the handler's turn comes ----
+QC_CONDS = [None, "machine.cx==0", "machine.cx>0", "machine.cx==1", "machine.cx!=2"]
+qc_handler = st.tuples(st.integers(-2, 2), st.sampled_from(QC_CONDS), st.sampled_from([None, None, 0, 1, 2]),
+                       st.sampled_from([0, 0, 5, 20])).map(list)
+case_qcond = st.tuples(st.integers(0, 2), st.lists(qc_handler, min_size=2, max_size=6),
+                       st.lists(st.tuples(st.sampled_from([3, 13, 27, 44]), st.integers(0, 2)).map(list), max_size=3,
+                                unique_by=lambda x: x[0]),
+                       st.sampled_from(["queue", "queue", "queue_async"])).map(
+    lambda t: {"cx0": t[0], "handlers": t[1], "top": sorted(t[2]), "kind": t[3]})
+
+
+def check_qcond(case):
+    """Reference: walk the handlers in priority order (ties in registration order); the variable changes made by earlier
+    handlers and by the outside world while a handler holds the queue are in effect when the next condition is read."""
+    vio = []
+    classes = set()
+    hs = case["handlers"]
+    # ---- reference
+    order = sorted(range(len(hs)), key=lambda i: -hs[i][0])
+    t, cx = 0.0, case["cx0"]
+    top = list(case["top"])
+    exp = []
+    for i in order:
+        while top and top[0][0] <= t:
+            cx = top.pop(0)[1]
+        prio, cond, setv, wait = hs[i]
+        ok = True if cond is None else bool(eval(cond.replace("machine.cx", "cx"), {"__builtins__": {}}, {"cx": cx}))   # pylint: disable=eval-used
+        if ok:
+            exp.append((i, t))
+            if setv is not None:
+                if setv != cx:
+                    classes.add("a handler changed what a later condition reads")
+                cx = setv
+            if wait:
+                if any(t < tt <= t + wait for tt, _ in top):
+                    classes.add("the variable changed while a handler held the queue")
+                t += wait
+    end_t = t
+    with Rig("events") as rig:
+        m = rig.machine
+        m.variables.set_machine_var("cx", case["cx0"])
+        rig.advance(0.01)
+        got, done = [], []
+        T0 = [0.0]
+
+        def ms():
+            return round((rig.now - T0[0]) * 1000, 3)
+
+        def mk(i):
+            def h(queue, **kwargs):
+                got.append((i, ms()))
+                if hs[i][2] is not None:
+                    m.variables.set_machine_var("cx", hs[i][2])
+                if hs[i][3]:
+                    queue.wait()
+                    rig.loop.call_later(hs[i][3] / 1000.0, queue.clear)
+            return h
+        for i, (prio, cond, _s, _w) in enumerate(hs):
+            m.events.add_handler("qe" + ("{%s}" % cond if cond else ""), mk(i), prio)
+        T0[0] = rig.now
+        for tt, val in case["top"]:
+            rig.loop.call_later(tt / 1000.0, m.variables.set_machine_var, "cx", val)
+        if case["kind"] == "queue":
+            m.events.post_queue("qe", lambda **kwargs: done.append(ms()))
+        else:
+            fut = m.events.post_queue_async("qe")
+            fut.add_done_callback(lambda f: done.append(ms()))
+        rig.advance(0.5)
+        exc = rig.exception_summaries()
+    if exc:
+        vio.append(violation("loop-exception", "exception reached the loop: %s" % exc[:2]))
+    elif [g[0] for g in got] != [e[0] for e in exp]:
+        vio.append(violation("qcond:wrong-handlers", "queue event with handlers (priority, condition, sets cx, waits ms) %r, cx=%d at the "
+                             "post, outside changes %r: handlers %r ran, the reference gives %r" % (
+                                 hs, case["cx0"], case["top"], got, exp)))
+    elif any(abs(g[1] - e[1]) > 0.01 for g, e in zip(got, exp)):
+        vio.append(violation("qcond:wrong-times", "handlers ran at %r, expected %r" % (got, exp)))
+    elif len(done) != 1 or abs(done[0] - end_t) > 0.01:
+        vio.append(violation("qcond:callback", "the queue event's completion was reported %r (ms), expected once at %r" % (done, end_t)))
+    return Result(vio or None, sorted(classes) or ["plain"], bool(classes))
+
+
 SUBCHECKS = [
     SubCheck("relay", lambda: case_relay, check_relay, quick=1500, thorough=40000, procs_quick=3),
     SubCheck("programs", lambda: evprog.program(queue=True).map(fix_program), check_programs, quick=2000, thorough=60000,
              procs_quick=8),
+    SubCheck("qcond", lambda: case_qcond, check_qcond, quick=1500, thorough=30000, procs_quick=4),
     SubCheck("modes", lambda: case_modes, check_modes, quick=600, thorough=10000, procs_quick=4),
     SubCheck("ballend", lambda: case_ballend, check_ballend, quick=600, thorough=4000, procs_quick=4),
     SubCheck("ballend2", lambda: case_ballend2, check_ballend2, quick=300, thorough=2000, procs_quick=4),
